@@ -35,7 +35,7 @@ import (
 )
 
 var fProp = flag.String("prop", "C07", "C07 or C08")
-var fOnly = flag.String("only", "", "C08: run only cases whose regime:seam contains this text")
+var fOnly = flag.String("only", "", "run only the scenarios whose name (C08: regime:seam) contains this text; the run is then for exploration only")
 var fKeep = flag.Bool("keep", false, "keep node directories (debugging)")
 
 type witness struct {
@@ -142,6 +142,7 @@ type workload struct {
 	noLists  bool          // never create list values (a snapshot of a list kills the node: KF-C08-01 would hide everything else)
 	retry    time.Duration // pause before reconnecting (default 200 ms)
 	simple   bool          // only commands whose reply identifies the command (tagged PING, counter, own list, own register)
+	readers  int           // read-only clients per node (they never wait for a write of their own, so a node that answers reads by itself keeps answering them while cut off)
 	rate     float64       // if > 0: operations started per second over all clients (a node re-applies its whole log on restart and logs quadratically, so the log length bounds the recovery time)
 	issued   int64
 }
@@ -203,7 +204,7 @@ func (w *workload) genOp(r *rand.Rand, uniq string) ([][]byte, string) {
 
 // client runs one logical client against one node until stopped; after an operation without reply the
 // logical client is retired and a new one (new id, new connection) takes over.
-func (w *workload) client(node int, seed int64, wg *sync.WaitGroup) {
+func (w *workload) client(node int, seed int64, wg *sync.WaitGroup, readOnly bool) {
 	defer wg.Done()
 	r := rand.New(rand.NewSource(seed))
 	retry := w.retry
@@ -239,6 +240,9 @@ func (w *workload) client(node int, seed int64, wg *sync.WaitGroup) {
 				kind = 3
 			}
 			switch {
+			case readOnly:
+				cmd, key = w.genRead(r)
+				time.Sleep(time.Duration(5+r.Intn(20)) * time.Millisecond) // readers are light: they must not fill the log
 			case kind == 0:
 				cmd = respc.Cmd("RPUSH", logKey, strconv.Itoa(n))
 			case kind == 1:
@@ -593,6 +597,7 @@ func diffLines(a, b string) string {
 
 type stats struct {
 	scenarios, ops, open, nemesis, restarts, decided, unknown int
+	cutoffAcks                                                int // operations a cut-off former leader still acknowledged (reads, if it serves them itself)
 	leaderTerms                                               int // (term, leader) announcements read from the nodes' raft logs
 	kinds                                                     map[string]int
 	crashPoints                                               map[string]int
@@ -607,10 +612,35 @@ func (w *workload) run(clientsPerNode int, seed int64) *sync.WaitGroup {
 	for _, nd := range w.c.Nodes {
 		for k := 0; k < clientsPerNode; k++ {
 			wg.Add(1)
-			go w.client(nd.ID, seed*1009+int64(nd.ID)*101+int64(k), wg)
+			go w.client(nd.ID, seed*1009+int64(nd.ID)*101+int64(k), wg, false)
+		}
+		for k := 0; k < w.readers; k++ {
+			wg.Add(1)
+			go w.client(nd.ID, seed*1013+int64(nd.ID)*103+int64(k), wg, true)
 		}
 	}
 	return wg
+}
+
+// genRead is a read of one of the shared keys.
+func (w *workload) genRead(r *rand.Rand) ([][]byte, string) {
+	c := respc.Cmd
+	switch r.Intn(7) {
+	case 0, 1:
+		return c("GET", "reg0"), "reg0"
+	case 2:
+		return c("GET", "reg1"), "reg1"
+	case 3:
+		return c("GET", "ctr0"), "ctr0"
+	case 4:
+		if !w.noLists {
+			return c("LRANGE", "list0", "0", "-1"), "list0"
+		}
+		return c("GET", "reg0"), "reg0"
+	case 5:
+		return c("SMEMBERS", "set0"), "set0"
+	}
+	return c("HGET", "hash0", "f"+strconv.Itoa(r.Intn(3))), "hash0"
 }
 
 func checkLinearizable(w *workload, st *stats, tag string) {
@@ -668,6 +698,7 @@ func scenarioC07(o *common.Opts, idx int, st *stats, n int, race bool) string {
 	}
 	w := newWorkload(c)
 	w.rate = 400
+	w.readers = 1
 	wg := w.run(o.Pick(2, 3), o.Seed*7919+int64(idx))
 	r := rand.New(rand.NewSource(o.Seed*104729 + int64(idx)))
 	actions := o.Pick(4, 8)
@@ -960,6 +991,9 @@ func main() {
 		var wg sync.WaitGroup
 		sem := make(chan struct{}, 7) // clusters alive at a time (each is 3-5 processes)
 		for i, j := range jobs {
+			if *fOnly != "" && !strings.Contains("nemesis", *fOnly) {
+				continue
+			}
 			wg.Add(1)
 			go func(i int, j job) {
 				defer wg.Done()
@@ -983,6 +1017,9 @@ func main() {
 		}
 		extra := func(name string, n int, f func(idx int, local *stats) string) {
 			for k := 0; k < n; k++ {
+				if *fOnly != "" && !strings.Contains(name, *fOnly) {
+					continue
+				}
 				wg.Add(1)
 				go func(k int) {
 					defer wg.Done()
@@ -1012,6 +1049,9 @@ func main() {
 		wg.Add(1)
 		go func() {
 			defer wg.Done()
+			if *fOnly != "" && !strings.Contains("determinism", *fOnly) {
+				return
+			}
 			sem <- struct{}{}
 			defer func() { <-sem }()
 			local := &stats{kinds: map[string]int{}, crashPoints: map[string]int{}}
@@ -1214,6 +1254,7 @@ func merge(a, b *stats) {
 	a.decided += b.decided
 	a.unknown += b.unknown
 	a.leaderTerms += b.leaderTerms
+	a.cutoffAcks += b.cutoffAcks
 	for k, v := range b.kinds {
 		a.kinds[k] += v
 	}
